@@ -26,7 +26,8 @@ ASSUMPTIONS = [
     "text codecs: iso-8859-1, utf-8, utf-16-le, utf-32-le as modelled in Model/CodecPrim.v (strict UTF-8/16/32)",
     "Array element types are classes (n_bytes: an instance, as the library returns it); struct members are classes or named instances",
     "EPATH and CIP segment types are property C09, not this one",
-    "the theorem covers type terms without StructTag (its round trip is checked on the implementation and tied by correspondence only)",
+    "StructTag: the theorem covers template layouts (members at increasing non-overlapping offsets of constant width, BOOL members in hidden hosts or padding); other layouts are checked on the implementation only",
+    "C06_real_precision relies on Proofs/CodecWireFloat.v (property C07's vertical) for the agreement of round32/widen32 with Flocq",
 ]
 
 CORPUS = os.path.join(fw.VERIF, "corpus", "C06")
@@ -142,7 +143,7 @@ def leaf_sweeps(rng, thorough):
         for _ in range(200 if thorough else 12):
             out.append((("elem", n), [rng.random() < 0.5 for _ in range(8 * w)]))
     out += [(("elem", "BOOL"), True), (("elem", "BOOL"), False)]
-    for _ in range(20000 if thorough else 1200):
+    for _ in range(12000 if thorough else 1200):
         out.append((("elem", rng.choice(["REAL", "LREAL"])), cc._canon_float(cc.gen_float(rng))))
     for x in cc.FLOATS_SPECIAL:
         out += [(("elem", "REAL"), cc._canon_float(x)), (("elem", "LREAL"), cc._canon_float(x))]
@@ -163,23 +164,37 @@ def leaf_sweeps(rng, thorough):
     return res
 
 
-def run_cases(R, mp, triples, thorough):
-    """correspondence + domain cross-check + oracle over (td, v, kind) triples"""
+def run_cases(R, mp, triples, thorough, light=False):
+    """correspondence + domain cross-check + oracle over (td, v, kind) triples.  light: (for the
+    exhaustive leaf sweeps) no domain cross-check and no malformed stream, only encode, decode of
+    the encoding followed by other data, and the oracle."""
     rng = R.rng
+    fixed_rest = {i: t[3] for i, t in enumerate(triples) if len(t) > 3}
+    triples = [t[:3] for t in triples]
     enc_cases = [("enc", td, v) for td, v, _ in triples]
     res = cc.corr(R, mp, enc_cases, stream="valid")
-    domain_check(R, mp, [(td, v) for td, v, _ in triples])
+    if not light:
+        domain_check(R, mp, [(td, v) for td, v, _ in triples])
     # decode of every valid encoding followed by other data; every truncation point; random bytes
     dec, mal = [], []
     seen_types = set()
+    hp_budget = [12 if thorough else 6]      # decodes of hang-prone types (each may cost a full time budget)
     for (op, td, v), mo, im in res:
+        if cc.x_hang_prone(cc.expand(td)):
+            R.count("hang_prone_types", "seen")
+            if hp_budget[0] <= 0:
+                continue
+            hp_budget[0] -= 1
+            if im[0] == "ok" and im[1] == 0:
+                dec.append(("dec", td, bytes.fromhex(im[2])))
+            continue
         if im[0] == "ok" and im[1] == 0:
             bs = bytes.fromhex(im[2])
             x = cc.expand(td)
             rest = b"" if cc.x_doc_greedy(x) else bytes(rng.randrange(256) for _ in range(rng.choice([0, 1, 2, 5])))
             dec.append(("dec", td, bs + rest))
-            if len(bs) <= 64 or rng.random() < 0.2:
-                mal += [("dec", td, t) for t in cc.truncations(bs, 24 if thorough else 10, rng)]
+            if not light and (len(bs) <= 64 or rng.random() < 0.2):
+                mal += [("dec", td, t) for t in cc.truncations(bs, 14 if thorough else 10, rng)]
         if td not in seen_types:
             seen_types.add(td)
             mal.append(("dec", td, cc.random_bytes(rng)))
@@ -188,11 +203,12 @@ def run_cases(R, mp, triples, thorough):
     cc.corr(R, mp, mal, stream="malformed")
     # the statement on the implementation
     orc = []
-    for td, v, kind in triples:
+    for i, (td, v, kind) in enumerate(triples):
         x = cc.expand(td)
         R.count("value_kind", kind)
         if cc.py_doc_dom(x, v):
             rest = b"" if cc.x_doc_greedy(x) else bytes(rng.randrange(256) for _ in range(rng.choice([0, 0, 1, 3, 8])))
+            rest = fixed_rest.get(i, rest)
             orc.append((td, v, rest))
             R.count("oracle_type_kind", cc.ty_kind(td))
             R.count("oracle_type_depth", cc.ty_depth(td))
@@ -232,13 +248,18 @@ def run(R, escalate=False):
                 if fn.endswith(".json"):
                     for j in json.load(open(os.path.join(CORPUS, fn))):
                         td, v, rest = case_from_json(j)
-                        corpus.append((td, v, "corpus"))
+                        corpus.append((td, v, "corpus", rest))
         R.count("stream", "corpus", len(corpus))
         run_cases(R, mp, corpus, thorough)
         sweeps = leaf_sweeps(rng, thorough)
         R.count("stream", "leaf-sweeps", len(sweeps))
-        run_cases(R, mp, sweeps, thorough)
-        n = 40000 if thorough else 2200
+        if thorough:    # exhaustive 16-bit: encode/decode/oracle on all, the full treatment on a sample
+            for i in range(0, len(sweeps), 50000):
+                run_cases(R, mp, sweeps[i:i + 50000], thorough, light=True)
+            run_cases(R, mp, rng.sample(sweeps, 6000), thorough)
+        else:
+            run_cases(R, mp, sweeps, thorough)
+        n = 16000 if thorough else 2200
         for i in range(0, n, 2000):
             pairs = gen_pairs(rng, min(2000, n - i), thorough)
             R.count("stream", "type-grammar", len(pairs))
